@@ -33,6 +33,13 @@ def handle (op : String) (j : Json) : R Json := do
     let fuel ← nat? (← field j "max_iters")
     let res := runLoop (stepRef driverFuns ps) tEnd maxSteps fuel 0 ⟨σ, init⟩
     pure (jobj [("steps", jarr (res.map fun (evs, s) => jobj [("events", jarr (evs.map evJ)), ("after", snapJ names s)]))])
+  | "abort" =>
+    let ph ← phaseOf (← field j "phase")
+    let σ ← storeOf (← field j "store")
+    let names ← listOf str? (← field j "observe")
+    let pre ← listOf nat? (← field j "prefix")
+    let s := abortedStep driverFuns ph pre ⟨σ, ph.name⟩
+    pure (jobj [("post", snapJ names s)])
   | _ => throw s!"unknown op C01.{op}"
 
 end Dagrt.Driver.C01
